@@ -328,6 +328,7 @@ func runC14(r *Result, d *drv.Driver, tier string, seed int64, replay string) {
 			r.find(Finding{Kind: "violation", What: "Close on a Client that is not connected failed", Input: "Client{}.Close"})
 		}
 	}
+	clientStates(r, ca)
 	// end to end against the package's own Server
 	endToEnd(r, ca)
 }
@@ -464,4 +465,104 @@ func replyReasonMessage(b []byte) (reason uint32, msg []byte, ok bool) {
 		}
 	}
 	return reason, msg, true
+}
+
+// clientStates: the Client in every connection state a caller can bring it into - never connected, Connect failed at the
+// dial, Connect failed at the TLS handshake (peer answers garbage / closes / presents an untrusted certificate), closed after
+// use, closed twice, connected twice.  C14: Send / DiscoverVersions return an error when not connected and never panic.
+func clientStates(r *Result, ca *tlsm.CA) {
+	try := func(state string, f func() (interface{}, error), wantErr bool) {
+		crumb("C14 client state: " + state)
+		r.eval("client-state:"+state, true)
+		var res interface{}
+		var err error
+		panicked := ""
+		func() {
+			defer func() {
+				if p := recover(); p != nil {
+					panicked = fmt.Sprint(p)
+				}
+			}()
+			res, err = f()
+		}()
+		switch {
+		case panicked != "":
+			r.find(Finding{Kind: "violation", What: "the Client panicked in state: " + state, Input: state, Expect: "an error", Actual: "panic: " + panicked})
+		case wantErr && err == nil:
+			r.find(Finding{Kind: "violation", What: "the Client reported success although it is not connected (" + state + ")", Input: state, Expect: "an error", Actual: fmt.Sprintf("%v", res)})
+		}
+	}
+	send := func(c *kmip.Client) func() (interface{}, error) {
+		return func() (interface{}, error) { return c.Send(kmip.OPERATION_GET, kmip.GetRequest{UniqueIdentifier: "x"}) }
+	}
+	dv := func(c *kmip.Client) func() (interface{}, error) {
+		return func() (interface{}, error) { return c.DiscoverVersions(nil) }
+	}
+	// a peer that accepts TCP and answers every connection with non-TLS bytes, then closes
+	garbage, err := net.Listen("tcp", "127.0.0.1:0")
+	if err != nil {
+		r.find(Finding{Kind: "disagreement", What: "cannot listen", Input: err.Error()})
+		return
+	}
+	defer garbage.Close()
+	go func() {
+		for {
+			c, e := garbage.Accept()
+			if e != nil {
+				return
+			}
+			_, _ = c.Write([]byte("HTTP/1.1 400 Bad Request\r\n\r\n"))
+			c.Close()
+		}
+	}()
+	// a TLS peer whose certificate the client does not trust
+	foreign := tlsm.NewCA("foreign")
+	untrusted, err := tls.Listen("tcp", "127.0.0.1:0", &tls.Config{Certificates: []tls.Certificate{tlsm.Leaf(foreign, tlsm.LeafOpts{Host: "127.0.0.1"})}})
+	if err != nil {
+		r.find(Finding{Kind: "disagreement", What: "cannot listen", Input: err.Error()})
+		return
+	}
+	defer untrusted.Close()
+	go func() {
+		for {
+			c, e := untrusted.Accept()
+			if e != nil {
+				return
+			}
+			go func() { _ = c.(*tls.Conn).Handshake(); c.Close() }()
+		}
+	}()
+	newClient := func(endpoint string) *kmip.Client {
+		cfg := &tls.Config{RootCAs: ca.Pool}
+		kmip.DefaultClientTLSConfig(cfg)
+		return &kmip.Client{Endpoint: endpoint, TLSConfig: cfg, ReadTimeout: time.Second, WriteTimeout: time.Second}
+	}
+	for _, ep := range []struct{ name, addr string }{
+		{"Connect failed at the dial", "127.0.0.1:1"},
+		{"Connect failed at the handshake (peer sent non-TLS bytes)", garbage.Addr().String()},
+		{"Connect failed at the handshake (untrusted certificate)", untrusted.Addr().String()},
+	} {
+		c := newClient(ep.addr)
+		if err := c.Connect(); err == nil {
+			r.find(Finding{Kind: "disagreement", What: "Connect unexpectedly succeeded in the client-state scenario", Input: ep.name})
+			c.Close()
+			continue
+		}
+		try(ep.name+", then Send", send(c), true)
+		try(ep.name+", then DiscoverVersions", dv(c), true)
+		try(ep.name+", then Close", func() (interface{}, error) { return nil, c.Close() }, false)
+		try(ep.name+", then Close, then Send", send(c), true)
+	}
+	// after a successful exchange: Close, Close again, Send
+	srv, err := newRawServer(tlsm.Leaf(ca, tlsm.LeafOpts{Host: "127.0.0.1"}))
+	if err == nil {
+		defer srv.ln.Close()
+		c := newClient(srv.ln.Addr().String())
+		if err := c.Connect(); err == nil {
+			try("connected, Close", func() (interface{}, error) { return nil, c.Close() }, false)
+			try("closed, Close again", func() (interface{}, error) { return nil, c.Close() }, false)
+			try("closed, then Send", send(c), true)
+			try("closed, then DiscoverVersions", dv(c), true)
+		}
+	}
 }
